@@ -1,7 +1,7 @@
 (** C07, part 2: the value path through the tiers. *)
 From Coq Require Import ZArith NArith List Bool Lia.
 From Coq Require Import ZifyBool ZifyNat ZifyN.
-From Snel Require Import Base.Bytes Model.Float64 Model.RustText Model.Json Model.ValueTiers Gen.Params.
+From Snel Require Import Base.Bytes Model.Float64 Model.RustText Model.JsonV7 Model.ValueTiers Gen.Params.
 From Snel Require Import Proofs.ValueTextProofs.
 Import ListNotations.
 Open Scope Z_scope.
